@@ -761,7 +761,7 @@ static iwrc _jbl_as_json(binn *bn, jbl_json_printer pt, void *op, int lvl, jbl_p
       break;
 
     case BINN_STRING:
-      rc = _jbl_write_json_string(bn->ptr, -1, pt, op, pf);
+      rc = _jbl_write_json_string(bn->ptr, bn->size > 0 ? bn->size : -1, pt, op, pf);
       break;
     case BINN_UINT8:
       llv = bn->vuint8;
